@@ -299,6 +299,18 @@ struct World {
     mon: Mon,
     wakers: Vec<Waker>,
     is_async: bool,
+    /// a call on this half panicked: the object is poisoned, later calls on the half are skipped
+    rpoison: bool,
+    wpoison: bool,
+}
+
+/// which half an operation works on (0 = read, 1 = write, 2 = neither)
+fn half_of(op: &str) -> u8 {
+    match op {
+        "read" | "rbu" | "fillbuf" | "consume" | "fill" | "pr" | "pru" | "pfb" | "co" => 0,
+        "write" | "wflush" | "pw" | "pfl" | "pcl" => 1,
+        _ => 2,
+    }
 }
 
 fn new_world() -> World {
@@ -318,6 +330,8 @@ fn new_world() -> World {
         },
         wakers: (0..4).map(|i| Waker::from(Arc::new(TaskWaker(i)))).collect(),
         is_async: false,
+        rpoison: false,
+        wpoison: false,
     }
 }
 
@@ -357,6 +371,10 @@ fn list<T: ToString>(v: &[T]) -> String {
 impl World {
     fn exec_line(&mut self, line: &str, ex: &mut Exec) -> String {
         let w: Vec<&str> = line.split_whitespace().collect();
+        let half = half_of(w[0]);
+        if (half == 0 && self.rpoison) || (half == 1 && self.wpoison) {
+            return "skip".into();
+        }
         self.sh.borrow_mut().log.clear();
         self.sh.borrow_mut().revent = false;
         self.sh.borrow_mut().wevent = false;
@@ -395,6 +413,13 @@ impl World {
                 Sut::Async(_) => self.async_op(&w, ex),
             },
         };
+        if res == "panic" {
+            if half == 0 {
+                self.rpoison = true;
+            } else if half == 1 {
+                self.wpoison = true;
+            }
+        }
         let woken = drain_wakes();
         let (revent, wevent, log) = {
             let s = self.sh.borrow();
